@@ -239,7 +239,8 @@ def frame_mutation(d, service, mutation, part=None, seg="segmentedBoth", header_
 
 
 @meta(bounds="a symbolic octet string of 0..n octets delivered to the device at the link level (so it reaches the NPDU "
-             "decoder and whatever lies above), before or after (symbolic order) a valid request queued in the same instant",
+             "decoder and whatever lies above), unicast or broadcast (symbolic), before or after (symbolic order) a valid request "
+             "queued in the same instant",
       outside="octet strings longer than n",
       stubs=STUBS)
 def layer_noise(d, n, first):
@@ -247,12 +248,17 @@ def layer_noise(d, n, first):
     noise = draw_noise(d, n, first)
     other = nl.RawPeer(PEER + 1, lan)
     noise_first = d.bool('noise_first')
+    # addressed to the device or broadcast on its LAN
+    to = nl.LocalBroadcast() if d.bool('as_broadcast') else dev.address
     if noise_first:
-        peer.send(dev.address, noise)
+        peer.send(to, noise)
     other.send(dev.address, nl.frame(read_pv(0x42), True))
     if not noise_first:
-        peer.send(dev.address, noise)
+        peer.send(to, noise)
     w.run()
+    # what the DEVICE sent to the other station (a broadcast noise frame reaches that station too)
+    other.received = [(src, data) for (src, data) in other.received if src == dev.address]
+    peer.received = [(src, data) for (src, data) in peer.received if src == dev.address]
     ro = replies(other)
     if len(ro) != 1 or ro[0]["type"] != 3 or ro[0]["invoke"] != 0x42 or bytes(ro[0]["payload"]) != PV_ACK_BODY:
         raise Violation("concurrent-valid-request-not-answered", noise=noise,
